@@ -64,8 +64,11 @@ KINDS = [("new", 16), ("new", 17), ("new", 20), ("new", 32), ("new", 64), ("new"
          ("node", 0), ("node", 25), ("node", 100), ("node", 216), ("node", 217)]
 
 
+BIG_KINDS_QUICK = [("new", 16), ("new", 256), ("alloc", 65535)]
+
+
 def _lens(mx):
-    return sorted({0, 1, 4, 5, 8, max(0, mx - 2), mx - 1, mx, mx + 1, 300, 65533, 65534, 65535})
+    return sorted({0, 1, 4, 5, 8, max(0, mx - 2), mx - 1, mx, mx + 1, 300})
 
 
 def _triples(tier):
@@ -74,22 +77,34 @@ def _triples(tier):
     for kind in KINDS:
         mx = _cap(kind)
         mk = "i %s %d" % kind
-        for old in _lens(mx):
-            for new in _lens(mx) + [65536]:
-                nd = _data(new, 0x62)
-                base = ["i reset", mk, "i set 0 %s" % _data(old)]
-                # by set
-                out.append(("t:set:%s%d:%d:%d" % (kind[0], kind[1], old, new),
-                            base + ["i set 0 %s" % nd, "i cmp 0 %s" % nd, "i cmp 0 %s" % _data(new, 0x63), "i cmp 0 %s" % _data(max(0, new - 1), 0x62),
-                                    "i set 0 %s -1" % nd, "i free 0"]))
-                # zero-pointer set
-                out.append(("t:null:%s%d:%d:%d" % (kind[0], kind[1], old, new),
-                            base + ["i set 0 null %d" % new, "i cmp 0 null %d" % max(0, new - 1), "i cmp 0 %s" % _data(min(new, 30), 0), "i free 0"]))
-                # by copy from another identifier of a different size
-                for o in others if (tier != "quick" or kind[0] == "new") else others[:1]:
-                    out.append(("t:copy:%s%d:%s%d:%d:%d" % (kind[0], kind[1], o[0], o[1], old, new),
-                                base + ["i %s %d" % o, "i set 1 %s" % nd, "i copy 0 1", "i ineq 0 1", "i ineq 1 0", "i cmp 0 %s" % nd, "i cmp 1 %s" % nd,
-                                        "i set 1 %s" % _data(3, 0x70), "i cmp 0 %s" % nd, "i free 1", "i cmp 0 %s" % nd, "i free 0"]))
+        small = _lens(mx)
+        if tier == "quick":
+            big_old = [65534] if kind in BIG_KINDS_QUICK else []
+            big_new = [65534, 65535, 65536] if kind in BIG_KINDS_QUICK else []
+        else:
+            big_old = [65533, 65534, 65535]
+            big_new = [65533, 65534, 65535, 65536]
+        pairs = [(o, n) for o in small + big_old for n in small + big_new]
+        if tier == "quick":
+            # two long contents in one script only for the smallest storage
+            pairs = [(o, n) for (o, n) in pairs if not (o > 1000 and n > 1000) or kind == ("new", 16)]
+        for old, new in pairs:
+            nd = _data(new, 0x62)
+            base = ["i reset", mk, "i set 0 %s" % _data(old)]
+            long_ = old > 1000 or new > 1000
+            # by set
+            out.append(("t:set:%s%d:%d:%d" % (kind[0], kind[1], old, new),
+                        base + ["i set 0 %s" % nd, "i cmp 0 %s" % nd, "i cmp 0 %s" % _data(new, 0x63), "i cmp 0 %s" % _data(max(0, new - 1), 0x62)]
+                        + ([] if long_ else ["i set 0 %s -1" % nd]) + ["i free 0"]))
+            # zero-pointer set
+            out.append(("t:null:%s%d:%d:%d" % (kind[0], kind[1], old, new),
+                        base + ["i set 0 null %d" % new, "i cmp 0 null %d" % max(0, new - 1), "i cmp 0 %s" % _data(min(new, 30), 0), "i free 0"]))
+            # by copy from another identifier of a different size
+            for o in others if (tier != "quick" or (kind[0] == "new" and not long_)) else others[:1]:
+                out.append(("t:copy:%s%d:%s%d:%d:%d" % (kind[0], kind[1], o[0], o[1], old, new),
+                            base + ["i %s %d" % o, "i set 1 %s" % nd, "i copy 0 1", "i ineq 0 1", "i ineq 1 0", "i cmp 0 %s" % nd]
+                            + ([] if long_ else ["i cmp 1 %s" % nd, "i set 1 %s" % _data(3, 0x70), "i cmp 0 %s" % nd])
+                            + ["i free 1", "i cmp 0 %s" % nd, "i free 0"]))
     return out
 
 
